@@ -115,6 +115,24 @@ def scenarios(tier):
               'threads': [[('execute', 'gfw ( 1 )')], [('execute', 'max ( 4 , 9 )'), ('set_flag', 'F')]], 'probe': []})
     S.append({'id': 'operator-handler-waits', 'init': True, 'setup': [('register_prefix', '+++', wait_handler('G'))],
               'threads': [[('execute', '+++ 1')], [('execute', '- 1 + 2'), ('set_flag', 'G')]], 'probe': []})
+    # two registrations of different names in the same registry (no update may be lost)
+    S.append({'id': 'two-new-infix-registrations', 'init': True, 'setup': [],
+              'threads': [[('register_infix', 'hi', 111, 'LEFT', T('HI'))], [('register_infix', 'lo', 109, 'LEFT', T('LO'))]],
+              'probe': [('execute', '1 hi 2'), ('execute', '1 lo 2')]})
+    S.append({'id': 'two-new-function-registrations', 'init': True, 'setup': [],
+              'threads': [[('register_function', 'f', T('F'))], [('register_function', 'g', T('G'))]], 'probe': [('execute', 'f ( )'), ('execute', 'g ( )')]})
+    S.append({'id': 'two-new-prefix-registrations', 'init': True, 'setup': [],
+              'threads': [[('register_prefix', '+++', T('PPP'))], [('register_prefix', '!!!', T('NNN'))]], 'probe': [('execute', '+++ 1'), ('execute', '!!! 1')]})
+    S.append({'id': 'two-new-postfix-registrations', 'init': True, 'setup': [],
+              'threads': [[('register_postfix', '---', T('MMM'))], [('register_postfix', '+++', T('PPP'))]], 'probe': [('execute', '1 ---'), ('execute', '1 +++')]})
+    # a thread that has already seen a spelling while it was not an operator; another thread registers it; the first
+    # thread looks again (its second look is ordered after the registration by the flag)
+    S.append({'id': 'seen-before-registered-elsewhere-infix', 'init': True, 'setup': [('register_function', 'gfw', wait_handler('R'))],
+              'threads': [[('parse', '1 zz 2'), ('execute', 'gfw ( 1 )'), ('parse', '1 zz 2')], [('register_infix', 'zz', 100, 'LEFT', T('ZZ')), ('set_flag', 'R')]],
+              'probe': [('parse', '1 zz 2')]})
+    S.append({'id': 'seen-before-registered-elsewhere-prefix', 'init': True, 'setup': [('register_function', 'gfw', wait_handler('R'))],
+              'threads': [[('execute', '+++ 1'), ('execute', 'gfw ( 1 )'), ('execute', '+++ 1')], [('register_prefix', '+++', T('PPP')), ('set_flag', 'R')]],
+              'probe': [('execute', '+++ 1')]})
     if tier == 'thorough':
         S.append({'id': 'three-first-uses', 'init': False, 'setup': [], 'threads': [[('register_function', 'mul', T('MY-mul'))], [('execute', '1 + 2')], [('execute', 'max ( 1 , 2 )')]],
                   'probe': [('execute', 'mul ( 2 , 3 )')]})
